@@ -4,7 +4,7 @@ import json, os
 from lib import vlib
 
 
-CONF_CFG = """CONSTANTS Conns = {1, 2, 3}
+CONF_CFG = """CONSTANTS Conns = {1, 2, 3, 4, 5, 6, 7, 8}
   MaxMsgs = 1000
   PerMessageGoroutine = FALSE
   GlobalLock = FALSE
